@@ -8,6 +8,13 @@
 //
 // Case line:   X id <8 digest words, hex, comma separated> <length in bits, hex> <tail hex> <write hex>
 // Observation: id ok <digest returned by Sum(nil)> <length counter afterwards, hex> <tail afterwards>
+// Case line:   F id secret label seed n    gmtls's GMSSL PRF, prf12(sm3.New), through the hook gmtls.VerifPrfSM3
+// Observation: id ok <n bytes>
+// Case line:   C id key recs                gmtls's record MAC of the SM3 suites (macSM3 / tls10MAC.MAC) on ONE object for all
+//
+//	records; recs = seq:header:data:extra,... (extra "~" = nil)
+//
+// Observation: id ok <mac,...>
 // Case line:   A id ops      history (W:<hex> | S:<kind>:<hex> | R, as in c04) on sm3.New(); every Write
 //
 //	is made from ONE caller buffer that is reused and scribbled over
@@ -25,6 +32,7 @@ import (
 	"strings"
 	"time"
 
+	"github.com/tjfoc/gmsm/gmtls"
 	"github.com/tjfoc/gmsm/sm3"
 	"verifharness/internal/hx"
 )
@@ -48,6 +56,23 @@ func runCase(line string) string {
 	res, _ := hx.Guard(60*time.Second, func() string {
 		if f[0] == "A" {
 			return runAlias(f[2])
+		}
+		if f[0] == "F" {
+			n, _ := strconv.Atoi(f[5])
+			return "ok " + hx.Hex(gmtls.VerifPrfSM3(n, unHexDot(f[2]), unHexDot(f[3]), unHexDot(f[4])))
+		}
+		if f[0] == "C" {
+			m := gmtls.VerifNewMacSM3(unHexDot(f[2]))
+			var outs []string
+			for _, rec := range strings.Split(f[3], ",") {
+				p := strings.Split(rec, ":")
+				var extra []byte
+				if p[3] != "~" {
+					extra = unHexDot(p[3])
+				}
+				outs = append(outs, hex.EncodeToString(m.MAC(unHexDot(p[0]), unHexDot(p[1]), unHexDot(p[2]), extra)))
+			}
+			return "ok " + strings.Join(outs, ",")
 		}
 		if f[0] != "X" {
 			return "BADCASE"
@@ -162,6 +187,40 @@ func gen(seed uint64, tier string, o *hx.Out) {
 	for i := 0; i < nA; i++ {
 		id++
 		line := fmt.Sprintf("A %d %s", id, genAliasOps(r, maxOps))
+		o.Case(line)
+		o.Obs(runCase(line))
+	}
+	// gmtls: PRF output lengths around multiples of 32 and the lengths gmtls asks for (12, 48, 2*(32+16+16))
+	nF, nC := 40, 30
+	if tier == "thorough" {
+		nF, nC = 400, 300
+	}
+	for i := 0; i < nF; i++ {
+		n := r.Pick([]int{0, 1, 12, 31, 32, 33, 48, 64, 65, 128, 200})
+		if r.Intn(4) == 0 {
+			n = r.Intn(300)
+		}
+		id++
+		line := fmt.Sprintf("F %d %s %s %s %d", id, hexOrDot(r.Bytes(r.Pick([]int{0, 1, 48, 64, 65, 100}))),
+			hexOrDot(r.Bytes(r.Pick([]int{0, 13, 15}))), hexOrDot(r.Bytes(r.Pick([]int{0, 32, 64}))), n)
+		o.Case(line)
+		o.Obs(runCase(line))
+	}
+	for i := 0; i < nC; i++ {
+		k := 1 + r.Intn(5)
+		recs := make([]string, k)
+		for j := range recs {
+			extra := "~"
+			if r.Intn(2) == 0 {
+				extra = hexOrDot(r.Bytes(r.Intn(80)))
+			}
+			seq := []byte{0, 0, 0, 0, 0, 0, 0, byte(j)}
+			dl := r.Pick([]int{0, 1, 42, 43, 44, 106, 107, 108, 1000})
+			hdr := []byte{23, 1, 1, byte(dl >> 8), byte(dl)}
+			recs[j] = fmt.Sprintf("%s:%s:%s:%s", hexOrDot(seq), hexOrDot(hdr), hexOrDot(r.Bytes(dl)), extra)
+		}
+		id++
+		line := fmt.Sprintf("C %d %s %s", id, hexOrDot(r.Bytes(r.Pick([]int{0, 32, 64, 65}))), strings.Join(recs, ","))
 		o.Case(line)
 		o.Obs(runCase(line))
 	}
